@@ -13,7 +13,8 @@ import ast
 
 from ..model import walk_no_nested, norm, call_name, is_self_attr
 from ..facts import FuncFacts, facts_at, count_paths, calls_hit
-from ..report import Ctx
+from ..report import Ctx, AnalysisError, SubCtx
+from .. import freshrules
 
 AG = "pydcop.infrastructure.agents"
 OA = "pydcop.infrastructure.orchestratedagents"
@@ -37,6 +38,36 @@ def _always(f, pred, exits=("fall", "return")):
     return all(o.k[k][0] >= 1 for k in exits if k in o.k), o
 
 
+def _deliver(ctx, repo):
+    hm = repo.func("pydcop.infrastructure.agents", "Agent._handle_message")
+    ctx.touch(hm)
+    hp = hm.params
+    oc = [c for c in walk_no_nested(hm.node) if isinstance(c, ast.Call) and call_name(c) == "on_message"]
+    ok = len(oc) == 1
+    if ok:
+        k = count_paths(hm.node.body, calls_hit(lambda x: x is oc[0])).k
+        ok = all(v == (1, 1) for kind, v in k.items() if kind in ("fall", "return")) and [norm(a) for a in oc[0].args] == [hp[1], hp[3], hp[4]]
+    ctx.check(ok, "R-DELIVER", "Agent._handle_message calls dest.on_message(sender, msg, t) exactly once on every normal path", hm, oc[0] if oc else hm.node,
+              "a message for a computation that is not started yet (its agent has not handled run_computations) must still reach on_message, which keeps it until start(): "
+              "dropping it leaves e.g. a DPOP parent waiting for a UTIL message for ever")
+    om = repo.func("pydcop.infrastructure.computations", "MessagePassingComputation.on_message")
+    ctx.touch(om)
+    ff = FuncFacts(om.node)
+    keep = [c for c in walk_no_nested(om.node) if isinstance(c, ast.Call) and norm(c.func) == "self._paused_messages_recv.append"]
+    disp = [c for c in walk_no_nested(om.node) if isinstance(c, ast.Call) and norm(c.func).startswith("self._decorated_handlers[")]
+    ok = len(keep) == 1 and len(disp) >= 1 and norm(keep[0].args[0]) == f"({om.params[1]}, {om.params[2]}, {om.params[3]})"
+    if ok:
+        tops = [st for st in om.node.body if isinstance(st, ast.If) and any(x is keep[0] for x in ast.walk(st))]
+        early = [x for x in walk_no_nested(om.node) if isinstance(x, (ast.Return, ast.Raise))]
+        ok = len(tops) == 1 and not early
+        if ok:
+            br_keep = tops[0].orelse if any(x is keep[0] for st in tops[0].orelse for x in ast.walk(st)) else tops[0].body
+            br_disp = tops[0].body if br_keep is tops[0].orelse else tops[0].orelse
+            ok = any(x is disp[0] for st in br_disp for x in ast.walk(st)) and any(isinstance(st, ast.Expr) and st.value is keep[0] for st in br_keep)
+    ctx.check(ok, "R-DELIVER", "MessagePassingComputation.on_message either dispatches the message or keeps it (sender, msg, t) for later", om, keep[0] if keep else om.node,
+              "on every normal path the message is handled now or appended to the buffer replayed by start() / pause(False)")
+
+
 def check(ctx: Ctx):
     repo = ctx.repo
     ctx.rule("R-END.agent", "finished() of a hosted computation always produces an end_of_computation message to the orchestrator")
@@ -47,7 +78,15 @@ def check(ctx: Ctx):
     ctx.rule("R-INFINITY", "the infinity used for the reported cost/violation is the one given to the solve/run entry point, forwarded link by link")
     ctx.rule("R-STATUS", "the run is reported FINISHED unless the timeout fired or the user interrupted: only those write the status")
     ctx.rule("R-VALUE", "selected values travel (agent, computation, value, cost, cycle) to the orchestrator and are reported with the DCOP's own accounting")
+    ctx.rule("R-DELIVER", "every message dequeued by an agent reaches on_message of its destination computation (which buffers it until started / resumed)")
+    ctx.rule("R-FRESH", "the payload of a message sent inside a loop is rebuilt for each iteration")
     msgs = repo.message_types()
+    _deliver(ctx, repo)
+    freshrules.check_fresh_payloads(ctx, "R-FRESH", ["pydcop.algorithms.dpop", "pydcop.infrastructure.orchestrator", "pydcop.infrastructure.orchestratedagents",
+                                                      "pydcop.infrastructure.agents", "pydcop.infrastructure.computations"], min_sends=3)
+    # "the reported assignment ... is optimal": the DPOP rules of C01 (UTIL / VALUE phases, objective, ownership of constraints) are part of this property too
+    from . import c01
+    c01.check(SubCtx(ctx, "R-DPOP."))
 
     # ---- R-END.agent ---------------------------------------------------------------------------------
     addc = repo.func(AG, "Agent.add_computation")
@@ -521,6 +560,10 @@ _A = "pydcop/infrastructure/agents.py"
 _D = "pydcop/algorithms/dpop.py"
 _S = "pydcop/commands/solve.py"
 VARIANTS = [
+    ("deliver_only_if_running", _A, "        dest = self.computation(dest_name)\n        dest.on_message(sender_name, msg, t)\n", "        dest = self.computation(dest_name)\n        if dest.is_running:\n            dest.on_message(sender_name, msg, t)\n", "break", "R-DELIVER"),
+    ("on_message_drops_when_not_running", "pydcop/infrastructure/computations.py", "            self._paused_messages_recv.append((sender, msg, t))\n\n    def post_msg", "            if self._running:\n                self._paused_messages_recv.append((sender, msg, t))\n\n    def post_msg", "break", "R-DELIVER"),
+    ("dpop_value_lists_hoisted", _D, "        for c in self._children:\n            variables_msg = [self._variable]\n            values_msg = [selected_value]\n", "        variables_msg = [self._variable]\n        values_msg = [selected_value]\n        for c in self._children:\n", "break", "R-"),
+    ("dpop_cost_only_for_costfunc*", _D, "hasattr(self._variable, \"cost_for_val\")", "hasattr(self._variable, \"_cost_func\")", "break", "R-DPOP."),
     ("end_any_finished", _O, "        all_finished = all(s == 'finished'\n", "        all_finished = any(s == 'finished'\n", "break", "R-END.mgt"),
     ("end_marks_sender", _O, "        self._computation_status[msg.computation] = 'finished'", "        self._computation_status[msg.agent] = 'finished'", "break", "R-END.mgt"),
     ("end_check_before_mark", _O, "        self._computation_status[msg.computation] = 'finished'\n        self.logger.debug(' status %s', self._computation_status.items())\n        all_finished = all(s == 'finished'\n                           for n, s in self._computation_status.items())\n",
